@@ -31,7 +31,9 @@ SlackMs == 150
 
 M0 == [sent |-> <<>>, ndel |-> 0, alive |-> <<>>, op |-> "none", t0 |-> 0, tmo |-> -1, d |-> <<>>,
        decisive |-> "none", wrote |-> FALSE, unspec |-> FALSE, unspecNext |-> FALSE,
-       closedAt |-> -1, errAt |-> -1, errN |-> 0, status |-> FALSE, fail |-> "ok"]
+       closedAt |-> -1, errAt |-> -1, errN |-> 0, status |-> FALSE, fail |-> "ok",
+       \* a read issued by ANOTHER task of the caller and still pending (op "bgread"); at most one
+       bg |-> [on |-> FALSE, t0 |-> 0, tmo |-> -1]]
 
 Fail(m, label) == [m EXCEPT !.fail = label]
 
@@ -69,13 +71,15 @@ OnOut(c, m, t, f) ==
     [] OTHER -> Fail(m, "wire/unexpected-frame-written")
 
 OnBegin(c, m, e) ==
+  IF e.op = "bgread" THEN [m EXCEPT !.bg = [on |-> TRUE, t0 |-> e.t, tmo |-> e.tmo]] ELSE
   [m EXCEPT !.op = e.op, !.t0 = e.t, !.tmo = e.tmo, !.d = e.d, !.decisive = "none", !.wrote = FALSE,
             !.unspec = (m.unspec \/ m.unspecNext)]
 
 \* messages for us that a read may still deliver: those fed before any error word
 Deliverable(m) == IF m.errAt = -1 THEN Len(m.sent) ELSE m.errN
 
-EndRead(c, m, e) ==
+\* a read that started at t0 with caller timeout tmo ends (the foreground one or the pending background one)
+EndReadG(c, m, e, t0, tmo) ==
   IF e.res = "ok" THEN
          IF m.ndel < Len(m.sent) /\ e.d = m.sent[m.ndel + 1].d
          THEN [m EXCEPT !.ndel = @ + 1]
@@ -87,13 +91,15 @@ EndRead(c, m, e) ==
          THEN Fail(m, "H5/message-for-us-available-but-read-timed-out")
          ELSE IF m.closedAt = -1 /\ m.errAt # -1 /\ m.errAt < e.t - SlackMs /\ m.ndel >= Deliverable(m)
          THEN Fail(m, "H4/error-control-word-did-not-surface")
-         ELSE IF m.tmo = -1 \/ e.t < m.t0 + m.tmo THEN Fail(m, "read/timeout-before-the-caller-deadline")
+         ELSE IF tmo = -1 \/ e.t < t0 + tmo THEN Fail(m, "read/timeout-before-the-caller-deadline")
          ELSE m
     [] e.res = "ConnErr" ->
          IF m.closedAt # -1 THEN m
          ELSE IF m.errAt # -1 THEN Fail(m, "H4/connection-not-closed-after-error-control-word")
          ELSE Fail(m, "H1/read-failed-on-an-open-connection")
     [] OTHER -> Fail(m, "read/unexpected-exception")
+
+EndRead(c, m, e) == EndReadG(c, m, e, m.t0, m.tmo)
 
 EndWrite(c, m, e) ==
   IF m.unspec \/ m.status \/ (m.closedAt # -1 /\ m.closedAt <= m.t0) THEN
@@ -118,6 +124,7 @@ EndWrite(c, m, e) ==
     [] OTHER -> Fail(m, "write/unexpected-exception")
 
 OnEnd(c, m, e) ==
+  IF e.op = "bgread" THEN [EndReadG(c, m, e, m.bg.t0, m.bg.tmo) EXCEPT !.bg.on = FALSE] ELSE
   LET m1 == CASE e.op = "read" -> EndRead(c, m, e)
               [] e.op = "write" -> EndWrite(c, m, e)
               [] OTHER -> m
